@@ -109,9 +109,8 @@ def run(ctx) -> None:
     ctx.assumptions += base.ASSUMPTIONS
     ctx.check_proofs(['Store/StoreCheck'])
     clauses = SC.C02_CLAUSES
-    evals = [base.section_witnesses(ctx, clauses, WITNESSES),
-             section_random(ctx, clauses),
-             base.section_exhaustive(ctx, clauses)]
+    evals = [base.section_witnesses(ctx, clauses, WITNESSES), section_random(ctx, clauses)]
+    evals += base.section_exhaustive(ctx, clauses)
     base.section_maildir(ctx, clauses)
     for ev in evals:
         ev.finish()
